@@ -45,7 +45,7 @@ func (c14) Describe() CheckInfo {
 		},
 		RealCode:       []string{"gopatch main()/mainCmd.Run, patchRunner, patch.Parse/File.Apply, internal/engine (compiled program, dotAssoc maps), go/token.FileSet shared across files and calls"},
 		Stubs:          []string{"package os", "path/filepath walk", "io/ioutil", "time (simulated clock)", "math/rand top-level functions (seeded by the harness)", "choice of which caller goroutine runs next (simrt scheduler)"},
-		RequiredProbes: []string{"cli-grouped-vs-solo", "cli-permutation", "cli-unparseable-neighbour", "cli-repeat-identical", "hist-call", "hist-failing-call", "hist-result-held", "sched-run", "sched-overlap", "sched-preempt-sweep", "sched-concurrent-parse", "sched-pct", "sched-two-switch-site-uniform", "race-log-checked", "sched-same-filename", "cli-respelled-duplicate", "cli-module-root-in-tree", "cli-two-packages-in-one-directory", "cli-more-files-than-descriptors", "cli-neighbour-write-fault"},
+		RequiredProbes: []string{"cli-grouped-vs-solo", "cli-permutation", "cli-unparseable-neighbour", "cli-repeat-identical", "hist-call", "hist-failing-call", "hist-result-held", "sched-run", "sched-overlap", "sched-preempt-sweep", "sched-concurrent-parse", "sched-pct", "sched-two-switch-site-uniform", "race-log-checked", "sched-same-filename", "cli-respelled-duplicate", "cli-module-root-in-tree", "cli-two-packages-in-one-directory", "cli-more-files-than-descriptors", "cli-neighbour-write-fault", "cli-special-imports-before-ungrouped", "cli-underscore-or-dot-named-file"},
 	}
 }
 
@@ -207,6 +207,47 @@ func c14GenCLI(r *world.PRNG, seed uint64, i int) *Case {
 				c.AddFile(fmt.Sprintf("%sill%d.go", dir, j), []byte(c14ExtraPatches[5].srcs[r.Intn(2)]), "rewrite-error", nil, "")
 			} else {
 				c.AddFile(fmt.Sprintf("%snm%d.go", dir, j), NonMatchingFile(r, "canonical", ""), "nomatch", nil, "")
+			}
+		}
+	}
+	if r.Chance(1, 5) {
+		// files with unusual imports (cgo, unsafe, dot and blank imports, embed)
+		// that match, sorting before an ordinary matching file whose import block
+		// is ungrouped: what is decided for the first must not leak to the second
+		ch := all[r.Intn(len(all))]
+		if ch.T.Decl == nil && ch.T.Imports == nil {
+			special := r.Pick([]string{
+				"/*\n#include <stdlib.h>\n*/\nimport \"C\"\n",
+				"import \"C\"\n",
+				"import \"unsafe\"\n\nvar _ unsafe.Pointer\n",
+				"import . \"fmt\"\n\nvar _ = Sprint\n",
+				"import _ \"embed\"\n\n//go:embed a_special.go\nvar self string\n",
+			})
+			src := "package sample\n\n" + special + "\nfunc special() {\n\t" + ch.T.Stmt(r, ch.K) + "\n}\n"
+			if ParsesAsGo([]byte(src)) == nil {
+				c.AddFile("a_special.go", []byte(src), "match", nil, "special-imports")
+				o := GoFileOpts{Funcs: 1, Style: "canonical", Stmts: []string{ch.T.Stmt(r, ch.K)}, Imports: []string{"os", "example.com/zeta", "fmt", "example.com/alpha"}}
+				c.AddFile("zz_after_special.go", GenValidGoFile(r, o), "match", nil, "ungrouped-imports")
+				c.Extra["special_imports"] = "1"
+			}
+		}
+	}
+	if r.Chance(1, 6) {
+		// names the go tool ignores and gopatch does not: they sort before their
+		// siblings, which must be processed all the same
+		for i, f := range c.Files {
+			if r.Chance(1, 2) && !strings.Contains(strings.TrimPrefix(f.Path, ProjDir+"/"), "/") {
+				np := ProjDir + "/" + r.Pick([]string{"_", "."}) + path.Base(f.Path)
+				data := c.NodeData(f.Path)
+				for k := range c.Spec.Nodes {
+					if c.Spec.Nodes[k].Path == f.Path {
+						c.Spec.Nodes[k].Path = np
+					}
+				}
+				_ = data
+				c.Files[i].Path = np
+				c.Extra["underscore_named"] = "1"
+				break
 			}
 		}
 	}
@@ -438,6 +479,12 @@ func c14EvalCLI(env *Env, c *Case) []Violation {
 	}
 	if c.Extra["fd_limit"] == "1" {
 		env.Probe("cli-more-files-than-descriptors")
+	}
+	if c.Extra["special_imports"] == "1" {
+		env.Probe("cli-special-imports-before-ungrouped")
+	}
+	if c.Extra["underscore_named"] == "1" {
+		env.Probe("cli-underscore-or-dot-named-file")
 	}
 	var wantPrint bytes.Buffer
 	anyFail := false
